@@ -3,6 +3,7 @@ package provsim
 import (
 	"context"
 	"fmt"
+	"strings"
 
 	sdk "github.com/cosmos/cosmos-sdk/types"
 	abci "github.com/tendermint/tendermint/abci/types"
@@ -49,7 +50,13 @@ func runC15Feed(r *core.Run) (*core.Violation, func() *core.Violation) {
 	var wantTx, wantBlk []uint64
 	seq := uint64(0)
 	desc := ""
+	// results carry their block height as a node's do: several transactions may share a block, the
+	// header result of a block follows its transactions on the block subscription
+	height := int64(5)
 	for i := 0; i < nRes; i++ {
+		if i > 0 && r.Bool(50, "feed.next-block") {
+			height++
+		}
 		n := 1 + r.Choose(3, "feed.events")
 		failed := r.Bool(15, "feed.failed-tx")
 		blk := !failed && r.Bool(20, "feed.block-result")
@@ -68,17 +75,19 @@ func runC15Feed(r *core.Run) (*core.Violation, func() *core.Violation) {
 		}
 		switch {
 		case blk:
-			blkch <- ctypes.ResultEvent{Data: tmtypes.EventDataNewBlockHeader{ResultEndBlock: abci.ResponseEndBlock{Events: evs}}}
-			desc += fmt.Sprintf(" blk[%d]", n)
+			height++ // one header result per block
+			blkch <- ctypes.ResultEvent{Data: tmtypes.EventDataNewBlockHeader{Header: tmtypes.Header{Height: height}, ResultEndBlock: abci.ResponseEndBlock{Events: evs}}}
+			desc += fmt.Sprintf(" blk@%d[%d]", height, n)
 		case failed:
-			txch <- ctypes.ResultEvent{Data: tmtypes.EventDataTx{TxResult: abci.TxResult{Result: abci.ResponseDeliverTx{Code: 5, Events: evs}}}}
-			desc += fmt.Sprintf(" failed-tx[%d]", n)
+			txch <- ctypes.ResultEvent{Data: tmtypes.EventDataTx{TxResult: abci.TxResult{Height: height, Index: uint32(i), Result: abci.ResponseDeliverTx{Code: 5, Events: evs}}}}
+			desc += fmt.Sprintf(" failed-tx@%d[%d]", height, n)
 		default:
-			txch <- ctypes.ResultEvent{Data: tmtypes.EventDataTx{TxResult: abci.TxResult{Result: abci.ResponseDeliverTx{Events: evs}}}}
-			desc += fmt.Sprintf(" tx[%d]", n)
+			txch <- ctypes.ResultEvent{Data: tmtypes.EventDataTx{TxResult: abci.TxResult{Height: height, Index: uint32(i), Result: abci.ResponseDeliverTx{Events: evs}}}}
+			desc += fmt.Sprintf(" tx@%d[%d]", height, n)
 		}
 	}
-	r.Logf("L2 chain feed: readers=%d results:%s", nReaders, desc)
+	viaPublish := r.Bool(40, "knob.via-publish")
+	r.Logf("L2 chain feed: readers=%d via-Publish=%v results:%s", nReaders, viaPublish, desc)
 	r.Count("probe:l2-chain-feed-runs")
 	bus = pubsub.NewBus()
 	subscribed := 0
@@ -109,20 +118,38 @@ func runC15Feed(r *core.Run) (*core.Violation, func() *core.Violation) {
 			}
 		})
 	}
-	for _, st := range []struct {
-		name string
-		ch   chan ctypes.ResultEvent
-	}{{"tx-stream", txch}, {"blk-stream", blkch}} {
-		st := st
-		simrt.Go(st.name, func() {
-			for subscribed < nReaders {
-				if ctx.Err() != nil {
-					return // the run is over (a released task must never spin)
-				}
-				simrt.Yield("wait-for-subscribers")
+	simrt.NameChan(txch, "tx")
+	simrt.NameChan(blkch, "blk")
+	waitSubs := func() bool {
+		for subscribed < nReaders {
+			if ctx.Err() != nil {
+				return false // the run is over (a released task must never spin)
 			}
-			_ = events.VerifPublishEvents(ctx, st.ch, bus)
+			simrt.Yield("wait-for-subscribers")
+		}
+		return true
+	}
+	if viaPublish {
+		// the whole feed: events.Publish subscribes to both streams of a (stand-in) node and runs its
+		// publishers itself
+		r.Count("probe:l2-chain-feed-via-publish")
+		simrt.Go("publish", func() {
+			if waitSubs() {
+				_ = events.Publish(ctx, &fakeEventsClient{tx: txch, blk: blkch}, "feed", bus)
+			}
 		})
+	} else {
+		for _, st := range []struct {
+			name string
+			ch   chan ctypes.ResultEvent
+		}{{"tx-stream", txch}, {"blk-stream", blkch}} {
+			st := st
+			simrt.Go(st.name, func() {
+				if waitSubs() {
+					_ = events.VerifPublishEvents(ctx, st.ch, bus)
+				}
+			})
+		}
 	}
 	loop := &l2Loop{r: r, s: s}
 	done := func() bool {
@@ -171,3 +198,19 @@ func runC15Feed(r *core.Run) (*core.Violation, func() *core.Violation) {
 	_ = sdk.AccAddress{}
 	return nil, nil
 }
+
+// fakeEventsClient stands in for the node's event subscription API: the transaction query gets the
+// transaction channel, the block-header query the other one.
+type fakeEventsClient struct {
+	tx, blk chan ctypes.ResultEvent
+}
+
+func (f *fakeEventsClient) Subscribe(_ context.Context, _ string, query string, _ ...int) (<-chan ctypes.ResultEvent, error) {
+	if strings.Contains(query, "NewBlockHeader") {
+		return f.blk, nil
+	}
+	return f.tx, nil
+}
+
+func (f *fakeEventsClient) Unsubscribe(context.Context, string, string) error { return nil }
+func (f *fakeEventsClient) UnsubscribeAll(context.Context, string) error      { return nil }
